@@ -1,11 +1,18 @@
 ------------------------------- MODULE Trace -------------------------------
 (* C17 direction B: sessions recorded from the real API are re-computed with the operators of
    Segments / BondGraph.  TRACE_FILE is a JSON array of traces.  The first event of a trace
-   loads the subject:
-       {op: "load",  rows: [[chain, res_id, ins, name], ...], data: [int, ...]}
+   loads the subject; an annotation session keeps up to two live arrays (slot 1 / 2):
+       {op: "load",  slot, rows: [[chain, res_id, ins, name, hetero, atom_name], ...], data: [int, ...]}
        {op: "graph", n: int, E: [[i, j], ...]}
-   every later event is one public call with its logged outcome and observation:
-       {op, level, f?, vals?, idx?, root?, oc, out, carried?}
+   an in-place edit of the annotations of the live array of a slot (Segments!ApplyEdit), logged
+   with the annotation rows read back from the object afterwards:
+       {op: "edit",  slot, ed: {kind, f, lo, hi, v}, out: rows}
+   an edit of the live bond list of a graph session (BondGraph!ApplyBondEdit), executed on
+   every live object (bond list, atom array, stack), logged with the bonds read back from each:
+       {op: "bond",  b: {how, i, j}, out: [[[i, j], ...], ...]}
+   every other event is one public call with its logged outcome and observation; a call on a
+   slot is answered for the rows of that slot as they are after all edits so far:
+       {op, slot, level, f?, vals?, idx?, root?, oc, out, carried?}
    Every event is judged on its own; disagreements are printed as
        <<"MISMATCH", tid, eventIndex, expected outcome, expected value>>. *)
 EXTENDS Segments, BondGraph, Json, IOUtils, TLC
@@ -21,14 +28,14 @@ Flat(lists) == FlattenSeq(lists)
 
 \* the specification's answer for one logged call
 Expected(e) ==
-  LET rows == S.rows IN
+  LET rows == S.arr[e.slot].rows IN
   CASE e.op = "starts"      -> Op_Starts(e.level, rows, FALSE)
     [] e.op = "startsStop"  -> Op_Starts(e.level, rows, TRUE)
     [] e.op = "count"       -> Op_Count(e.level, rows)
     [] e.op = "iter"        -> Op_Iter(e.level, rows)
     [] e.op = "residues"    -> Op_Residues(rows)
     [] e.op = "chains"      -> Op_Chains(rows)
-    [] e.op = "apply"       -> Op_Apply(e.level, rows, S.data, e.f)
+    [] e.op = "apply"       -> Op_Apply(e.level, rows, S.arr[e.slot].data, e.f)
     \* the driver takes the number of values from the implementation's own segment count:
     \* outside Dom_SpreadVals that count is wrong, which is reported as such
     [] e.op = "spread"      -> IF Dom_SpreadVals(e.level, rows, e.vals) THEN Op_Spread(e.level, rows, e.vals)
@@ -55,7 +62,17 @@ Judge(e, r) ==
                 [] OTHER             -> e.oc = "ok" /\ OutMatches(e, r)
   IN IF good THEN TRUE ELSE PrintT(<<"MISMATCH", tid, l + 1, r.oc, r.out>>)
 
-Empty == [rows |-> <<>>, data |-> <<>>, n |-> 0, E |-> {}]
+\* an edit: inside the array (Dom_Edit), and the object then carries exactly the edited rows
+JudgeEdit(e, before, after) ==
+  IF Dom_Edit(Len(before), e.ed) /\ e.out = after THEN TRUE
+  ELSE PrintT(<<"MISMATCH", tid, l + 1, "ok", after>>)
+
+JudgeBond(e, after) ==
+  IF Dom_BondEdit(S.n, e.b) /\ \A k \in DOMAIN e.out : ToSet(e.out[k]) = after /\ NoDupSeq(e.out[k]) THEN TRUE
+  ELSE PrintT(<<"MISMATCH", tid, l + 1, "ok", after>>)
+
+NoArr == [rows |-> <<>>, data |-> <<>>]
+Empty == [arr |-> <<NoArr, NoArr>>, n |-> 0, E |-> {}]
 
 Init == tid \in 1..Len(Tr) /\ l = 0 /\ S = Empty
 
@@ -64,7 +81,12 @@ Next ==
   /\ l' = l + 1
   /\ UNCHANGED tid
   /\ LET e == Tr[tid][l + 1] IN
-     CASE e.op = "load"  -> S' = [S EXCEPT !.rows = e.rows, !.data = e.data]
+     CASE e.op = "load"  -> S' = [S EXCEPT !.arr[e.slot] = [rows |-> e.rows, data |-> e.data]]
+       [] e.op = "bond"  -> LET after == ApplyBondEdit(S.E, e.b) IN
+                            JudgeBond(e, after) /\ S' = [S EXCEPT !.E = after]
+       [] e.op = "edit"  -> LET before == S.arr[e.slot].rows  after == ApplyEdit(before, e.ed) IN
+                            /\ JudgeEdit(e, before, after)
+                            /\ S' = [S EXCEPT !.arr[e.slot].rows = after]
        [] e.op = "graph" -> S' = [S EXCEPT !.n = e.n, !.E = ToSet(e.E)]
        [] OTHER          -> Judge(e, Expected(e)) /\ UNCHANGED S
 
